@@ -92,7 +92,7 @@ def parseCfg (s : String) : Cfg := Id.run do
       else if k == "w" then cfg := { cfg with ns := v == "1" }
       else if k == "e" then cfg := { cfg with eager := if v == "" then [] else (v.splitOn ":").map unhexStr }
       else if k == "z" then z := v != ""
-      else if k == "zm" then zm := if v == "" then [] else (v.splitOn ":").map unhexStr
+      else if k == "zm" then zm := if v == "" then [] else (v.splitOn ":").map fun e => unhexStr (e.drop 1).toString
       else if k == "y" then
         if v == "1" then cfg := { cfg with enc := some fun s => some ("ENC(".toList ++ s ++ ")".toList) }
         else if v == "2" then cfg := { cfg with enc := some fun _ => none }
